@@ -42,6 +42,25 @@ def check_list_removal(rep, rule, m, fname, must_free=True):
                 ok = True
             else:
                 pos = None
+                # the node pointer is a loop-carried local: accept if every value it is ever given is a popped node
+                vm = re.match(r"^\((\w+)(?:#L\d+)? - &NULL->\w+\)$", tag)
+                if vm:
+                    from .. import inv as _inv
+                    from ..vals import FuncCtx as _FC
+                    from ..astutil import strip as _strip, kids as _kids
+                    cx_ = _FC(m, f)
+                    vals_ = []
+                    for l_, r_, k_, n_ in _inv.stores(f):
+                        ls_ = _strip(l_, casts=True)
+                        if ls_["kind"] == "DeclRefExpr" and ls_["ref"]["name"] == vm.group(1):
+                            vals_.append(cx_.canon(r_) if (r_ is not None and k_ == "=") else "?")
+                    for d_ in walk(f.body):
+                        if d_["kind"] == "VarDecl" and d_.get("name") == vm.group(1) and _kids(d_):
+                            vals_.append(cx_.canon(_kids(d_)[0]))
+                    pops_ = {v_ for v_ in vals_ if re.fullmatch(r"cmi_slist_pop\(.+\)", v_)}
+                    if vals_ and len(pops_) == 1 and all(v_ in pops_ for v_ in vals_):
+                        ok = True
+                        pos = re.fullmatch(r"cmi_slist_pop\((.+)\)", next(iter(pops_))).group(1)
             if ok and matched and pos not in matched:
                 ok = False
                 why_not = "the node matched follows '%s' but the node unlinked and recycled follows '%s'" % (matched[-1], pos)
